@@ -245,6 +245,7 @@ func runStream(id string, parts []string) string {
 	if err != nil {
 		return "HARNESS-ERROR env: " + strings.ReplaceAll(err.Error(), " ", "_")
 	}
+	defer putEnv(f["cfg"])
 	segs, err := parseSegs(f["segs"])
 	if err != nil {
 		return "HARNESS-ERROR bad hex"
